@@ -729,6 +729,7 @@ def clone(d):
 
 
 HEXDIGITS = '0123456789abcdef'
+TEXT_COMMITTED = ('key', 'stream_hash', 'blob.iv', 'blob.blob_hash')
 
 
 def string_fields(base):
@@ -791,7 +792,8 @@ def tamper_chars(base, which, wide=False):
         if ch.isalpha():
             d = clone(base)
             dset(d, path, s[:p] + ch.upper() + s[p + 1:])
-            yield T('char-case', field, blob, f'pos {p}: {ch!r}->{ch.upper()!r}', dumps(d), must=False)
+            yield T('char-case', field, blob, f'pos {p}: {ch!r}->{ch.upper()!r}', dumps(d),
+                    must=True if field in TEXT_COMMITTED else False)
         d = clone(base)
         dset(d, path, s[:p] + s[p + 1:])
         yield T('char-delete', field, blob, f'pos {p}', dumps(d), must=True)
@@ -987,7 +989,10 @@ def judge_tamper(t, loop, blob_dir):
     from lbry.stream.descriptor import StreamDescriptor
     from lbry.blob.blob_file import BlobFile
     tb = t['bytes']
-    reasons = ref.inconsistencies(tb, lenient=True)
+    # hex case is spelling only where the commitment is over the *decoded* value (the two names); the key, the
+    # IVs, the blob hashes and the stream hash are committed as the text that stands in the JSON, so a case
+    # edit there changes what the stream hash commits to and is judged by the strict reference
+    reasons = ref.inconsistencies(tb, lenient=not (t['op'] == 'char-case' and t['field'] in TEXT_COMMITTED))
     name = sha384(tb)
     path = os.path.join(blob_dir, name)
     with open(path, 'wb') as f:
